@@ -670,6 +670,34 @@ def main():
     for fname in ("encode_data", "write_data"):
         attempt([fname], (lambda f=fname: {f: t_writes(f)}))
 
+    # the skeleton of Decoder::decode: which tests it makes and in which order
+    def t_decode_steps():
+        # (keywords keep one blank behind them, everything else is compared without blanks)
+        body = re.sub(r"\s+", "", re.sub(r"\b(if|let|return|as)\s+", r"\1~", rsexpr.strip_noise(rsexpr.fn_body(codec, "decode"))))
+        shapes = [
+            ("StHeader", r"if~self\.state==RequestParserState::None\{if~src\.len\(\)<(?:MemcacheBinaryCodec|Self)::HEADER_LEN\{return~Ok\(None\);?\}(?:let~result=self\.parse_header\(src\);result\?;?|self\.parse_header\(src\)\?;)\}"),
+            ("StTooLarge", r"if~self\.header\.body_length>self\.item_size_limit\{let~result=self\.parse_item_too_large\(src\);self\.init_parser\(\);return~result;?\}"),
+            ("StNeedMore", r"if~\(?self\.header\.body_length~?as~usize\)?>src\.len\(\)\{return~Ok\(None\);?\}"),
+            ("StParse", r"(?:return~)?self\.parse_request\(src\);?"),
+        ]
+        steps = []
+        rest = body
+        while rest:
+            for name, rx in shapes:
+                m = re.match(rx, rest)
+                if m:
+                    steps.append(name)
+                    rest = rest[m.end():]
+                    break
+            else:
+                raise RsError("decode: cannot parse the statement at %r" % rest[:60])
+            if steps[-1] == "StParse" and rest:
+                raise RsError("decode: statements after parse_request")
+        if not steps or steps[-1] != "StParse":
+            raise RsError("decode: does not end in parse_request")
+        return {"decode_steps": steps}
+    attempt(["decode_steps"], t_decode_steps)
+
     L = []
     A = L.append
     A("(* GENERATED by tools/gen_tables.py from the Rust sources — do not edit. *)")
@@ -805,6 +833,14 @@ def main():
         A("Definition src_flush_read : N * nat := (0, O).")
     A("(* parse_header_only_request does not touch the buffer *)")
     A("Definition src_header_only_reads_nothing : bool := %s." % ("true" if "header_only_reads" in gen else "false"))
+    A("(* the skeleton of Decoder::decode: its tests in the order made *)")
+    if "decode_steps" in gen:
+        A("Definition src_decode_steps_ok : bool := true.")
+        A("Definition src_decode_steps : list dstep := [%s]." % "; ".join(gen["decode_steps"]))
+    else:
+        A("(* not translated: %s *)" % untranslated["decode_steps"].replace("*)", "* )").replace("(*", "( *"))
+        A("Definition src_decode_steps_ok : bool := false.")
+        A("Definition src_decode_steps : list dstep := [].")
     A("(* what the encoder writes behind the header, per kind of response (1 error, 2 get, 3 plain, 4 quit, 5 version, 6 counter): (field, write); fields: " + ", ".join("%d %s" % (v, k) for k, v in wfield_ids.items()) + " *)")
     for item in ("encode_data", "write_data"):
         if item in gen:
